@@ -140,9 +140,18 @@ func parseArgsWithExpiration(args map[string]any, defaultHandler func(name strin
 	for name, arg := range args {
 		switch name {
 		case "expiration.seconds", "seconds":
-			expiration = now.Add(time.Second*time.Duration(arg.(int64)) - time.Nanosecond)
+			n := arg.(int64)
+			if n > math.MaxInt64/int64(time.Second) {
+				// the lifetime does not fit into the clock's range: invalid expire time
+				return
+			}
+			expiration = now.Add(time.Second*time.Duration(n) - time.Nanosecond)
 		case "expiration.milliseconds", "milliseconds":
-			expiration = now.Add(time.Millisecond*time.Duration(arg.(int64)) - time.Nanosecond)
+			n := arg.(int64)
+			if n > math.MaxInt64/int64(time.Millisecond) {
+				return
+			}
+			expiration = now.Add(time.Millisecond*time.Duration(n) - time.Nanosecond)
 		case "expiration.unix-time-seconds":
 			expiration = time.Unix(arg.(int64), 0).Add(time.Duration(now.Nanosecond()) - time.Nanosecond)
 		case "expiration.unix-time-milliseconds":
